@@ -54,6 +54,9 @@ pub enum HOp {
     /// Execute logical call `calls[i]`; `reuse`: use the builder value kept from an
     /// earlier execution (clone of a stored `Difficulty`) instead of a fresh one.
     Call { i: usize, reuse: bool },
+    /// The builder is first configured with other mods and used for a calculation, then `.mods(..)`
+    /// of the call's own spec is applied to that same value ("reused builder value", re-configured).
+    CallRemodded { i: usize },
     /// The next call runs on a fresh thread: fresh `RandomState` keys from the shim.
     HashUniverse,
     /// Allocate and partially free seeded junk so later allocations land elsewhere.
@@ -68,6 +71,7 @@ impl HOp {
     fn to_json(&self) -> Value {
         match self {
             HOp::Call { i, reuse } => json!({"call": i, "reuse": reuse}),
+            HOp::CallRemodded { i } => json!({"call_remodded": i}),
             HOp::HashUniverse => json!("hash_universe"),
             HOp::AllocNoise(n) => json!({"alloc_noise": n}),
             HOp::ClockJump(n) => json!({"clock_jump": n}),
@@ -77,6 +81,8 @@ impl HOp {
     fn from_json(v: &Value) -> Self {
         if v.as_str() == Some("hash_universe") {
             HOp::HashUniverse
+        } else if let Some(i) = v["call_remodded"].as_u64() {
+            HOp::CallRemodded { i: i as usize }
         } else if let Some(i) = v["call"].as_u64() {
             HOp::Call {
                 i: i as usize,
@@ -94,6 +100,7 @@ impl HOp {
         match self {
             HOp::Call { reuse: false, .. } => "call",
             HOp::Call { reuse: true, .. } => "call_reused_builder",
+            HOp::CallRemodded { .. } => "call_remodded_builder",
             HOp::HashUniverse => "hash_universe",
             HOp::AllocNoise(_) => "alloc_noise",
             HOp::ClockJump(_) => "clock_jump",
@@ -157,6 +164,26 @@ fn gen_case(rng: &mut Rng, tier: Tier) -> HistCase {
             modes.push(mode);
         }
     }
+    // a damaged file now and then: a slider line whose path breaks off in a later segment (the decoder
+    // skips the line; whatever it had put into its scratch lists by then must not reach anything else)
+    for m in maps.iter_mut() {
+        if rng.chance(0.3) {
+            let t = 99_000 + rng.range(0, 5000);
+            let bad = *rng.pick(&[
+                "B|200:300|400:50|L|300:300|B|oops:1",
+                "L|100:100|P|150:150|200:100|C|x:y",
+                "B|10:10|10:10|20:20|L|5:",
+                "P|300:200|350:250|L|",
+            ]);
+            let line = format!("120,140,{t},2,0,{bad},1,140");
+            if rng.chance(0.6) || m.objects.is_empty() {
+                m.objects.push(line);
+            } else {
+                let at = rng.usize(m.objects.len());
+                m.objects.insert(at, line);
+            }
+        }
+    }
     let n_calls = 2 + rng.usize(6);
     let mut calls = Vec::new();
     for _ in 0..n_calls {
@@ -189,10 +216,14 @@ fn gen_case(rng: &mut Rng, tier: Tier) -> HistCase {
                 _ => HOp::AllocReseed(*rng.pick(&[0xA5u8, 0xFF, 0x01, 0x7F, 0xCD])),
             });
         } else {
-            ops.push(HOp::Call {
-                i: rng.usize(n_calls),
-                reuse: rng.chance(0.3),
-            });
+            if rng.chance(0.12) {
+                ops.push(HOp::CallRemodded { i: rng.usize(n_calls) });
+            } else {
+                ops.push(HOp::Call {
+                    i: rng.usize(n_calls),
+                    reuse: rng.chance(0.3),
+                });
+            }
         }
     }
     HistCase {
@@ -210,12 +241,22 @@ struct World {
     kept: BTreeMap<usize, Difficulty>,
 }
 
-fn exec_call(w: &mut World, c: &CallSpec, i: usize, reuse: bool) -> String {
+fn exec_call(w: &mut World, c: &CallSpec, i: usize, reuse: u8) -> String {
     let map = &w.maps[c.map];
-    let d: Difficulty = if reuse {
-        w.kept.entry(i).or_insert_with(|| c.diff.build()).clone()
-    } else {
-        c.diff.build()
+    let d: Difficulty = match reuse {
+        1 => w.kept.entry(i).or_insert_with(|| c.diff.build()).clone(),
+        2 => {
+            // same settings but other mods, used once, then re-configured with the call's own mods
+            let mut other = c.diff.clone();
+            other.mods = Some(crate::spec::ModsSpec::Bits(if c.target == 3 { 64 + 32768 } else { 64 + 8 }));
+            let d0 = other.build();
+            let _ = crate::runner::guard(|| sut::oneshot_diff(&d0, map, c.target));
+            match &c.diff.mods {
+                Some(m) => m.apply_diff(d0),
+                None => d0.mods(0u32),
+            }
+        }
+        _ => c.diff.build(),
     };
     let mode = MODES[c.target];
     let mods = c.diff.mods.as_ref().map(crate::spec::ModsSpec::build).unwrap_or_else(|| 0u32.into());
@@ -375,7 +416,12 @@ fn exec_inner(case: &HistCase, st: &mut Stats) -> Option<Violation> {
                 seams::set_alloc_junk(*b);
                 last_env = "alloc_reseed";
             }
-            HOp::Call { i, reuse } => {
+            HOp::Call { .. } | HOp::CallRemodded { .. } => {
+                let (i, reuse) = match op {
+                    HOp::Call { i, reuse } => (i, u8::from(*reuse)),
+                    HOp::CallRemodded { i } => (i, 2u8),
+                    _ => unreachable!(),
+                };
                 let Some(c) = case.calls.get(*i) else { continue };
                 if c.map >= w.maps.len() {
                     continue;
@@ -386,19 +432,21 @@ fn exec_inner(case: &HistCase, st: &mut Stats) -> Option<Violation> {
                     continue;
                 }
                 st.ops += 1;
-                if *reuse {
+                if reuse == 1 {
                     st.fault("reused_builder");
+                } else if reuse == 2 {
+                    st.fault("remodded_builder");
                 }
                 let res = if fresh_thread {
                     fresh_thread = false;
                     std::thread::scope(|s| {
                         let w = &mut w;
-                        s.spawn(move || guard(|| exec_call(w, c, *i, *reuse)))
+                        s.spawn(move || guard(|| exec_call(w, c, *i, reuse)))
                             .join()
                             .unwrap_or_else(|_| Err("?|thread".into()))
                     })
                 } else {
-                    guard(|| exec_call(&mut w, c, *i, *reuse))
+                    guard(|| exec_call(&mut w, c, *i, reuse))
                 };
                 let dig = match res {
                     Ok(d) => d,
@@ -530,6 +578,7 @@ impl Engine for C01Engine {
                     if *reuse { "*" } else { "" },
                     i
                 ),
+                HOp::CallRemodded { i } => format!("{}~:{}", c.calls.get(*i).map_or("?", |c| c.kind.as_str()), i),
                 other => other.kind().to_owned(),
             })
             .collect();
